@@ -1,7 +1,7 @@
 """C16 — parameter interface contract, closed grid against a reference model transcribed from zstd.h."""
 RULE = ('objects {CCtx, CCtx_params, DCtx} x every ZSTD_cParameter / ZSTD_dParameter enumerator (38 + 7, experimental ones included) x every operation sequence of depth <= 3 over '
         '{set(v) for v in {lo, hi, lo-1, hi+1, lo+1, hi-1, 0, default, INT_MIN, INT_MAX}, reset(session), reset(parameters), reset(both), begin frame, end frame, failing call, '
-        'setParametersUsingCCtxParams, ZSTD_compressCCtx}; after every operation all getters are read and compared with the model; '
+        'setParametersUsingCCtxParams, ZSTD_compressCCtx, the struct setters ZSTD_CCtx_setCParams / setFParams / setParams (valid struct with opposite frame flags, the parameter under test replaced by lo, hi, lo-1, hi+1 when it is a member: refused => nothing changed, accepted => every member reads back)}; after every operation all getters are read and compared with the model; '
         'distinct = distinct (object, parameter, final vector, stage); non-trivial = at least one accepted set')
 
 
